@@ -10,6 +10,7 @@
 import SshAudit.Gen.Logic4
 import SshAudit.Lemmas.Py
 import SshAudit.Model.Report
+import SshAudit.Model.Output
 set_option linter.unusedSimpArgs false
 namespace SshAudit.GenLogic
 open SshAudit
@@ -79,5 +80,81 @@ theorem terrapin_rule_postProcess (db : DB) (peer : Report.Peer) (client : Bool)
     G.2 = R.vulnerable ∧ G.1.map (fun r => r.1) = some R.marker := by
   simp only [terrapin_rule_eq_model, Report.postProcess, Report.markerFor, Report.Venc, Report.Vmac, Report.both]
   exact ⟨rfl, rfl⟩
+
+/-! ### outputbuffer.py (C15): the level of a message, the filter of `_print`, the line buffer -/
+
+/-- the name `_print` is called with for each method of the buffer -/
+def methText : Output.Meth → Str
+  | .good => "good".toList
+  | .info => "info".toList
+  | .warn => "warn".toList
+  | .fail => "fail".toList
+  | .head => "head".toList
+
+/-- `OutputBuffer.get_level`: never raises; `good` counts as `info`, a name outside `LEVELS` is `sys.maxsize` -/
+theorem get_level_eq_model (m : Output.Meth) :
+    Gen.Logic.get_level (methText m) = some (match Output.getLevel m with | some k => (k : Int) | none => 9223372036854775807) := by
+  cases m <;> decide
+
+/-- the test that drops a message below the minimum level is the negation of `Output.passes` -/
+theorem print_filtered_eq_model (always : Bool) (m : Output.Meth) (lv : Nat) (hlv : lv ≤ 3) :
+    Gen.Logic.print_filtered always (methText m) (lv : Int) = some (!Output.passes lv m always) := by
+  simp only [Gen.Logic.print_filtered, get_level_eq_model, Output.passes]
+  cases always <;> cases m <;> simp [Output.getLevel] <;> try omega
+
+/-- `buf[-1] = buf[-1] + t` on a non-empty list, one `cons` at a time -/
+theorem last_update_cons (x y : Str) (r : List Str) (t : Str) :
+    (Option.bind (Py.getItem (x :: y :: r) (-1)) fun e => Py.setItem (x :: y :: r) (-1) (e ++ t)) =
+      (Option.bind (Py.getItem (y :: r) (-1)) fun e => Py.setItem (y :: r) (-1) (e ++ t)).map (x :: ·) := by
+  have h1 : Py.getItem (x :: y :: r) (-1) = Py.getItem (y :: r) (-1) := by
+    simp only [Py.getItem, List.length_cons]
+    have a1 : ¬ ((0 : Int) ≤ -1) := by omega
+    have a2 : -((r.length + 1 + 1 : Nat) : Int) ≤ -1 := by omega
+    have a3 : -((r.length + 1 : Nat) : Int) ≤ -1 := by omega
+    simp only [a1, a2, a3, if_true, if_false]
+    have e1 : (((r.length + 1 + 1 : Nat) : Int) + -1).toNat = r.length + 1 := by omega
+    have e2 : (((r.length + 1 : Nat) : Int) + -1).toNat = r.length := by omega
+    rw [e1, e2]
+    simp
+  rw [h1]
+  cases hg : Py.getItem (y :: r) (-1) with
+  | none => simp
+  | some e =>
+    simp only [Option.bind_some, Py.setItem, List.length_cons]
+    have a1 : ¬ ((0 : Int) ≤ -1) := by omega
+    have a2 : -((r.length + 1 + 1 : Nat) : Int) ≤ -1 := by omega
+    have a3 : -((r.length + 1 : Nat) : Int) ≤ -1 := by omega
+    simp only [a1, a2, a3, if_true, if_false]
+    have e1 : (((r.length + 1 + 1 : Nat) : Int) + -1).toNat = r.length + 1 := by omega
+    have e2 : (((r.length + 1 : Nat) : Int) + -1).toNat = r.length := by omega
+    rw [e1, e2]
+    simp only [Py.setAt?]
+    cases Py.setAt? (y :: r) r.length (e ++ t) <;> rfl
+
+/-- appending to the line buffer: a new entry when the last line was ended, otherwise the text is added to the last entry (`IndexError` on an
+    empty buffer) -/
+theorem append_line_eq_model (buf : List Str) (t : Str) (ended : Bool) :
+    Gen.Logic.append_line buf t ended = (if ended then some (buf ++ [t]) else Output.appendToLast buf t) := by
+  cases ended
+  · simp only [Gen.Logic.append_line, Bool.not_false, if_true, Bool.false_eq_true, if_false]
+    have key : ∀ l : List Str, l ≠ [] → (Option.bind (Py.getItem l (-1)) fun e => Py.setItem l (-1) (e ++ t)) = Output.appendToLast l t := by
+      intro l
+      induction l with
+      | nil => intro h; exact absurd rfl h
+      | cons x xs ih =>
+        intro _
+        cases xs with
+        | nil => simp [Py.getItem, Py.setItem, Py.setAt?, Output.appendToLast]
+        | cons y r => rw [last_update_cons, ih (by simp)]; rfl
+    cases buf with
+    | nil => simp [Py.getItem, Output.appendToLast]
+    | cons x xs =>
+      have hpos : decide (Int.ofNat (x :: xs).length > 0) = true := by simp
+      simp only [hpos, if_true]
+      rw [← key (x :: xs) (by simp)]
+      cases Py.getItem (x :: xs) (-1) with
+      | none => rfl
+      | some e => simp only [Option.bind_some]; cases Py.setItem (x :: xs) (-1) (e ++ t) <;> rfl
+  · simp [Gen.Logic.append_line]
 
 end SshAudit.GenLogic
